@@ -137,3 +137,15 @@ func joinSubPath(subPath, rel string) (string, error) {
 	}
 	return new, nil
 }
+
+// registrySubPathWritable checks that a sub-path can be part of a registry
+// source address. Unlike remote source addresses these have no escaping
+// mechanism, and a question mark in the text of an address introduces a
+// query string, so a registry address with such a sub-path could not be
+// written down and read back.
+func registrySubPathWritable(subPath string) error {
+	if strings.Contains(subPath, "?") {
+		return fmt.Errorf("a sub-path of a module registry address must not contain a question mark")
+	}
+	return nil
+}
